@@ -1,0 +1,14 @@
+//go:build verif
+
+// Contracts for the govc verifier (/verif). Comment-only: this file contains no code.
+package trace
+
+//@ // tracing is outside every claimed property: assumed contracts (trusted, listed in the evidence)
+//@ func CreateSpan
+//@   trusted
+//@   assigns nothing
+//@   ensures result != nil
+//@
+//@ func InjectHeaders
+//@   trusted
+//@   assigns nothing
